@@ -3,6 +3,7 @@ use crate::engine::Property;
 pub mod c02;
 pub mod c05;
 pub mod c06;
+pub mod c07;
 pub mod c11;
 pub mod c13;
 pub mod c14;
@@ -12,6 +13,7 @@ pub fn all() -> Vec<&'static dyn Property> {
         &c02::C02,
         &c05::C05,
         &c06::C06,
+        &c07::C07,
         &c11::C11,
         &c13::C13,
         &c14::C14,
